@@ -124,9 +124,14 @@ def main():
         if pre_n != post_n:
             changed += 1
             chk.distinct.add(('stream', hash(sig)))
-        why = absmach.equivalent(pre_n, post_n)
-        if why is None:
-            why = absmach.line_provenance(pre_n, post_n, f['post_lines'], f['pre_lines'])
+        try:
+            why = absmach.equivalent(pre_n, post_n)
+            if why is None:
+                why = absmach.line_provenance(pre_n, post_n, f['post_lines'], f['pre_lines'])
+        except ValueError as e:
+            # an instruction the abstract machine has no semantics for: no verdict on this stream
+            chk.inconclusive.append('abstract machine: %s (function %s)' % (e, f['name']))
+            continue
         if why is not None:
             chk.violation('recorded stream: ' + why,
                           {'stream.json': json.dumps({'name': f['name'], 'pre': f['pre'], 'post': f['post'],
